@@ -1154,6 +1154,15 @@ pub fn run_c19(args: &Args, tier: &str, seed: u64) -> Report {
             }
         }
     }
+    // third alphabet: names that differ only in letter case, the empty name, and values an encoder could not write (the
+    // container's behaviour does not depend on encodability): 2 kinds x 4 names x 2 values
+    for tag in [1u8, 2] {
+        for name in ["copies", "Copies", "COPIES", ""] {
+            for v in [MVal::Integer(1), MVal::Set(vec![])] {
+                special.push((tag, name.to_string(), v));
+            }
+        }
+    }
     let special = Arc::new(special);
     let total: u64 = (0..=k as u32).map(|l| 16u64.pow(l)).sum();
     let alphabet = Arc::new(alphabet);
@@ -1206,11 +1215,13 @@ pub fn run_c19(args: &Args, tier: &str, seed: u64) -> Report {
                 len += 1;
             }
             let seq = gen::seq_of(i, 16, len as usize);
-            let ops: Vec<(u8, String, MVal)> = seq.iter().map(|&x| special[x].clone()).collect();
-            for (si, st) in starts.iter().enumerate() {
-                let label = format!("start #{si}, special-name adds {:?}", ops.iter().map(|o| format!("{}:{}", o.0, o.1)).collect::<Vec<_>>());
-                c19_run_seq(&mut rep, st, &ops, &label, &["c19".to_string(), "--seed".into(), seed.to_string()]);
-                rep.count("enumerated_special_name_sequences", 1);
+            for half in 0..2usize {
+                let ops: Vec<(u8, String, MVal)> = seq.iter().map(|&x| special[half * 16 + x].clone()).collect();
+                for (si, st) in starts.iter().enumerate() {
+                    let label = format!("start #{si}, {} adds {:?}", if half == 0 { "special-name" } else { "case-variant / empty-name / empty-set" }, ops.iter().map(|o| format!("{}:{:?}={}", o.0, o.1, if matches!(o.2, MVal::Set(_)) { "empty-set" } else { "scalar" })).collect::<Vec<_>>());
+                    c19_run_seq(&mut rep, st, &ops, &label, &["c19".to_string(), "--seed".into(), seed.to_string()]);
+                    rep.count(if half == 0 { "enumerated_special_name_sequences" } else { "enumerated_case_variant_sequences" }, 1);
+                }
             }
             t += nthreads as u64;
         }
@@ -1227,8 +1238,14 @@ pub fn run_c19(args: &Args, tier: &str, seed: u64) -> Report {
                 None
             };
             let n = r.range(0, 200);
-            let names = ["a", "b", "c", "printer-uri", "job-id", "é", "", "attributes-charset", "attributes-natural-language", "job-uri"];
-            let ops: Vec<(u8, String, MVal)> = (0..n).map(|_| (*r.pick(&[1u8, 2, 3, 4, 5]), r.pick(&names).to_string(), gen::gen_value(&mut r, &cfg, 2, false).normalize())).collect();
+            let long_name = "n".repeat(70_000);
+            let names = ["a", "b", "c", "A", "B", "printer-uri", "Printer-URI", "job-id", "JOB-ID", "é", "É", "", "attributes-charset", "attributes-natural-language", "job-uri", long_name.as_str()];
+            let ops: Vec<(u8, String, MVal)> = (0..n)
+                .map(|_| {
+                    let v = if r.chance(1, 12) { MVal::Set(vec![]) } else { gen::gen_value(&mut r, &cfg, 2, false).normalize() };
+                    (*r.pick(&[1u8, 2, 3, 4, 5]), r.pick(&names).to_string(), v)
+                })
+                .collect();
             let label = format!("random case {i}: {} adds from {}", ops.len(), if start.is_some() { "a parsed G1 message" } else { "empty" });
             let replay = vec!["c19".to_string(), "--seed".into(), seed.to_string()];
             rep.nontrivial(hash64(label.as_bytes()));
